@@ -506,7 +506,107 @@ func (ex *Exec) applyLockEffect(ctx *EvalCtx, st *State, le LockEffect) {
 			ex.selfDeadlock(st, l, cond)
 		}
 	}
+	if le.Delta < 0 && !le.Read {
+		ex.monitorRelease(st, l)
+	}
 	ex.heapSet(st, key, ts.Store(held, l, nv))
+	if le.Delta > 0 && !le.Read {
+		var cond *Term
+		if le.Cond != nil {
+			cond, _ = ctx.evalBool(le.Cond)
+		}
+		ex.monitorAcquire(st, l, cond)
+	}
+}
+
+// monitorOf finds the monitor declared for the mutex field the lock term
+// denotes, together with the object that contains the mutex.
+func (ex *Exec) monitorOf(l *Term) (*MonitorDecl, *Term, types.Type) {
+	if ex.prog.Contracts.Monitors == nil || !strings.HasPrefix(l.Op, "$f:fa!") || len(l.Args) != 1 {
+		return nil, nil, nil
+	}
+	md := ex.prog.Contracts.Monitors[l.Op[len("$f:fa!"):]]
+	if md == nil || md.Pkg == nil {
+		return nil, nil, nil
+	}
+	obj := md.Pkg.Types.Scope().Lookup(md.TypeName)
+	if obj == nil {
+		ex.contractProblem("%s: monitor %s: unknown type %s", md.Pos, md.Key, md.TypeName)
+		return nil, nil, nil
+	}
+	return md, l.Args[0], obj.Type()
+}
+
+// monitorAcquire: other threads may have changed the guarded fields while the
+// lock was not held: havoc them and assume the monitor invariant.
+func (ex *Exec) monitorAcquire(st *State, l *Term, cond *Term) {
+	md, base, typ := ex.monitorOf(l)
+	if md == nil {
+		return
+	}
+	su, ok := typ.Underlying().(*types.Struct)
+	if !ok {
+		return
+	}
+	for _, g := range md.Guards {
+		found := false
+		for i := 0; i < su.NumFields(); i++ {
+			if su.Field(i).Name() != g {
+				continue
+			}
+			found = true
+			ft := su.Field(i).Type()
+			addr := ex.fieldAddr(st, TV{base}, typ, i)
+			nv := ex.fresh(st, "interference!"+g, ft)
+			if cond != nil {
+				old := ex.load(st, addr, ft)
+				nv = ex.mergeValues(cond, nv, old)
+			}
+			ex.store(st, addr, ft, nv)
+		}
+		if !found {
+			ex.contractProblem("%s: monitor %s: type %s has no field %s", md.Pos, md.Key, md.TypeName, g)
+		}
+	}
+	st.Time++
+	mctx := &EvalCtx{ex: ex, st: st, old: st, env: map[string]SV{"this": {V: TV{base}, T: types.NewPointer(typ)}}, pkg: md.Pkg}
+	for _, inv := range md.Inv {
+		c, err := mctx.evalBool(inv.Expr)
+		if err != nil {
+			ex.contractProblem("%s: monitor %s invariant: %v", inv.Pos, md.Key, err)
+			continue
+		}
+		if cond != nil {
+			c = ex.ts.Implies(cond, c)
+		}
+		ex.assume(st.PC, c)
+	}
+	ex.usedStubs["monitor "+md.Key+": guarded fields are havocked at every acquisition; the invariant is assumed there and proved at every release inside functions under contract"] = true
+}
+
+// monitorRelease: the invariant must hold when the lock is given up.
+func (ex *Exec) monitorRelease(st *State, l *Term) {
+	md, base, typ := ex.monitorOf(l)
+	if md == nil || !ex.full || ex.contract == nil {
+		return
+	}
+	mctx := &EvalCtx{ex: ex, st: st, old: st, env: map[string]SV{"this": {V: TV{base}, T: types.NewPointer(typ)}}, pkg: md.Pkg}
+	pos := token.NoPos
+	if ex.curFrame != nil {
+		pos = ex.curFrame.fn.Pos()
+	}
+	for i, inv := range md.Inv {
+		c, err := mctx.evalBool(inv.Expr)
+		if err != nil {
+			ex.contractProblem("%s: monitor %s invariant: %v", inv.Pos, md.Key, err)
+			continue
+		}
+		label := inv.Label
+		if label == "" {
+			label = fmt.Sprintf("%d", i+1)
+		}
+		ex.oblige("monitor-inv@unlock", md.TypeName+":"+label, pos, md.Props, st, c)
+	}
 }
 
 func (ex *Exec) selfDeadlock(st *State, l *Term, cond *Term) {
